@@ -4792,7 +4792,12 @@ impl<'a, 'graph> Builder<'a, 'graph> {
     loader: &'a dyn Loader,
     options: BuildOptions<'a>,
   ) -> Self {
-    let fill_pass_mode = match graph.roots.is_empty() {
+    // a restart throws the graph away, so it is only allowed when nothing
+    // was built yet (a graph built from configured imports has no roots)
+    let fill_pass_mode = match graph.roots.is_empty()
+      && graph.module_slots.is_empty()
+      && graph.imports.is_empty()
+    {
       true => FillPassMode::AllowRestart,
       false => FillPassMode::NoRestart,
     };
